@@ -11,7 +11,10 @@ CONFIG = dict(
              "on a chain's public key derives the same public keys as the seed wallet, which are the public keys of its secret "
              "child keys under the explicit hypothesis ckd_commutes from C16), entry_consistent (by construction of the model's "
              "entries). Tie: real deterministic, bip44, xpub and collection wallets; every case first reads back the reference "
-             "(first M addresses generated in ONE batch by a fresh wallet with the same seed; lastSeed after N keys for every N; for "
+             "(deterministic wallets: the cipher library's chain cipher.GenerateDeterministicKeyPairsSeed over the BYTES of the seed string - "
+             "addresses, keys and the seed state after N keys for every N - against which a one-batch wallet and the fingerprint of the "
+             "address-less wallet are also compared; seed strings are free-form: 64-hex legacy seeds, hex-looking words, digits, odd-length "
+             "and upper-case hex, mnemonic words, arbitrary text; other types: first M addresses generated in ONE batch by a fresh wallet with the same seed; for "
              "xpub also the seed wallet's external chain) and then runs random generate/scan(with activity sets)/Serialize+Load/"
              "Lock+Unlock sequences, including derivation on both bip44 chains WHILE LOCKED and through wallet.GuardUpdate, scans whose transaction finder fails (no effect on entries or lastSeed), and two-account bip44 wallets (per account and chain the entries are map child [0..N); a wallet-wide scan never shrinks another account: cscan_keeps); the driver predicts the entry list, returned addresses and lastSeed of every step from the "
              "reference via the model; Entry.Verify / VerifyPublic and equality of every entry (public and secret key) with the unencrypted reference wallet is checked after every unlock and at the end.",
